@@ -347,7 +347,8 @@ def run(chk, parts=PARTS):
                 "text case = string through a TTX channel; distinct by (font, configuration) / string; non-trivial = font has >= 5 tables / string "
                 "contains a character XML treats specially")
     if "mc" in parts:
-        chk.tlc("MC_TTXDump", label="dump layout lattice + per-glyph file naming of all glyph-name pairs", timeout=1800)
+        chk.tlc("MC_TTXDump", cfg="MC_TTXDump_thorough" if thorough else "MC_TTXDump",
+                label="dump layout lattice + per-glyph file naming of all glyph-name pairs", timeout=1800)
         rn = chk.tlc("MC_TTXDump", cfg="MC_TTXDump_neg", label="negative: dumper records per-glyph names as written, not lower-cased",
                      timeout=900, expect_ok=False, workers=4)
         if rn.exit == 0 or "RefOK is violated" not in rn.stdout:
